@@ -162,6 +162,7 @@ Section Load.
     | PIdentity _ _ =>
         rbind (read_hdr TAG_IDENTITY bs) (fun r0 =>
         rbind (read_ftr TAG_IDENTITY r0) (fun r1 => Good (DIdent, r1)))
+    | PProbe _ _ _ _ => Bad BadStack
     end.
 
   Definition layer_tag (l : layer) : option Z :=
